@@ -50,6 +50,8 @@ func init() {
 	register("C14", "", rulePlanImmutable, ruleCacheKey, ruleLocks(plannerPkg+".CachedPlanner"))
 	register("C13", "", ruleLocks(plannerPkg+".CachedPlanner", modPath+"/executor.CachedPointDataExtractor"))
 	register("C18", "", ruleLocks(modPath+".subscriptionEntry"), ruleChannels, ruleConnWriters, ruleTeardown, ruleGoSites, ruleSubscriptionRegistry)
+	register("C17", "", ruleNoClientWriteDeadline)
+	register("C18", "", ruleNoClientWriteDeadline, ruleCloseReason)
 	register("C17", "", ruleEventPath, ruleChannels, ruleGoSites, ruleUpstreamForward)
 	register("C06", "", ruleOperationType, rulePlanImmutable, ruleCacheKey, ruleCallers(nil))
 	register("C02", "", ruleOperationType, ruleCacheKey)
